@@ -1,6 +1,9 @@
 package sym
 
 import (
+	"crypto/md5"
+	"crypto/sha1"
+	"crypto/sha256"
 	"fmt"
 	"net"
 	"strings"
@@ -49,4 +52,27 @@ func init() {
 		fr.m.StubsHit["token:net.IP.String"]++
 		return fr.m.keyedToken("ip", strings.Join(keys, ","), bs)
 	})
+}
+
+func init() {
+	hashUF := func(name string, n int, native func([]byte) []byte) intrinsic {
+		return func(fr *frame, args []Value) Value {
+			bs := bytesOf(args[0])
+			out := make(Array, n)
+			if raw, ok := allConst(bs); ok {
+				for i, b := range native(raw) {
+					out[i] = term.Const(8, uint64(b))
+				}
+				return out
+			}
+			fr.m.StubsHit["uf:"+name]++
+			for i := range out {
+				out[i] = term.UF(fmt.Sprintf("%s_%d_b%d", name, len(bs), i), 8, bs)
+			}
+			return out
+		}
+	}
+	reg("crypto/sha1.Sum", hashUF("sha1", 20, func(b []byte) []byte { s := sha1.Sum(b); return s[:] }))
+	reg("crypto/sha256.Sum256", hashUF("sha256", 32, func(b []byte) []byte { s := sha256.Sum256(b); return s[:] }))
+	reg("crypto/md5.Sum", hashUF("md5", 16, func(b []byte) []byte { s := md5.Sum(b); return s[:] }))
 }
